@@ -182,7 +182,9 @@ func (d *Document) writeJSONValue(buf *bytes.Buffer, value Value) error {
 				variableName := d.Input.ByteSliceString(d.VariableValues[objFieldValue.Ref].Name)
 				_, dataType, _, _ := jsonparser.Get(d.Input.Variables, variableName)
 				if dataType == jsonparser.NotExist {
-					continue
+					if _, hasDefault := d.variableDefaultValueByName(variableName); !hasDefault {
+						continue
+					}
 				}
 			}
 
@@ -203,6 +205,10 @@ func (d *Document) writeJSONValue(buf *bytes.Buffer, value Value) error {
 		variableName := d.Input.ByteSliceString(d.VariableValues[value.Ref].Name)
 		variableValue, dataType, _, err := jsonparser.Get(d.Input.Variables, variableName)
 		if err != nil {
+			// a variable without a value has its default value (spec 6.1.2 CoerceVariableValues)
+			if defaultValue, hasDefault := d.variableDefaultValueByName(variableName); hasDefault {
+				return d.writeJSONValue(buf, defaultValue)
+			}
 			buf.Write(literal.NULL)
 			return nil //nolint:nilerr // A missing variable is rendered as GraphQL null.
 		}
@@ -305,6 +311,16 @@ func parseBracedUnicodeEscape(b []byte) (r rune, n int) {
 		return 0, 0
 	}
 	return r, end + 1
+}
+
+// variableDefaultValueByName returns the (constant) default value of the variable definition with the given name.
+func (d *Document) variableDefaultValueByName(name string) (Value, bool) {
+	for i := range d.VariableDefinitions {
+		if d.VariableDefinitions[i].DefaultValue.IsDefined && d.VariableDefinitionNameString(i) == name {
+			return d.VariableDefinitions[i].DefaultValue.Value, true
+		}
+	}
+	return Value{}, false
 }
 
 func (d *Document) ValueToJSON(value Value) ([]byte, error) {
